@@ -3,11 +3,13 @@
 // strong base-2 / strong Lucas tests list the pseudoprimes of the range (the inputs on which exactly
 // one half of Baillie-PSW errs) and the Au halves are observed on them.
 //
+// Every call of the code under test is guarded by the watchdog of c12_watchdog.hh (a call that does not
+// return within CPU seconds, or traps, is reported as a V line and ends the process with code 86).
+//
 // usage: c12_sieve LO HI MODE   (MODE bit 0: is_prime comparison, bit 1: find_prime_factor,
 //                                 bit 2: pseudoprime search by the harness's own slow tests)
 #pragma once
-#include "au/utility/factoring.hh"
-#include "c12_oracle.hh"
+#include "c12_common.hh"
 
 namespace c12 {
 
@@ -23,11 +25,12 @@ inline int sieve_main(int argc, char **argv) {
     const u64 lo = std::strtoull(argv[1], nullptr, 10), hi = std::strtoull(argv[2], nullptr, 10);
     const int fmode = std::atoi(argv[3]);
     if (hi > (1ULL << 32) || lo > hi) return 2;
+    ub_hook_selftest();
     const std::vector<std::uint32_t> base = small_primes(65536);
     std::vector<unsigned char> smallp(65536, 0);
     for (std::uint32_t p : base) smallp[p] = 1;
     SieveStats st;
-    int shown = 0;
+    int shown = 0, ub_shown = 0;
     const u64 SEG = 1ULL << 21;
     std::vector<unsigned char> comp(SEG);
     std::string psp2, pspl;
@@ -44,7 +47,9 @@ inline int sieve_main(int argc, char **argv) {
             bool want = n >= 2 && !comp[n - a];
             if (perturbed("sieve") && n == 1000003) want = false;
             // (factor-only mode still needs is_prime on primes: the hang guard below)
-            const bool got = ((fmode & 1) || want) ? au::detail::is_prime(n) : false;
+            const unsigned long ub0 = c12_ub_reports;
+            const bool got = ((fmode & 1) || want) ? au_is_prime(n) : false;
+            if (c12_ub_reports != ub0 && ub_shown++ < 6) ub_line("is_prime", n, "sieve", c12_ub_reports - ub0);
             want ? ++st.primes : ++st.composites;
             if (fmode & 1) ++st.evals_prime;
             if ((fmode & 1) && got != want) {
@@ -58,7 +63,10 @@ inline int sieve_main(int argc, char **argv) {
                 if (want && !got) {
                     ++st.skipped_factor_calls;  // Pollard rho on a prime would not terminate
                 } else {
-                    const u64 f = au::detail::find_prime_factor(n);
+                    const unsigned long ub1 = c12_ub_reports;
+                    const u64 f = au_find_prime_factor(n);
+                    if (c12_ub_reports != ub1 && ub_shown++ < 6)
+                        ub_line("find_prime_factor", n, "sieve", c12_ub_reports - ub1);
                     ++st.evals_factor;
                     bool ok = f > 1 && n % f == 0;
                     if (ok) {
@@ -90,10 +98,8 @@ inline int sieve_main(int argc, char **argv) {
                     st.spsp2 += p2;
                     st.slpsp += pl;
                     st.both_psp += (p2 && pl);
-                    const bool amr =
-                        au::detail::miller_rabin(2u, n) == au::detail::PrimeResult::PROBABLY_PRIME;
-                    const bool alu =
-                        au::detail::strong_lucas(n) == au::detail::PrimeResult::PROBABLY_PRIME;
+                    const bool amr = au_mr2_probably_prime(n);
+                    const bool alu = au_lucas_probably_prime(n);
                     st.au_mr2_agree += (amr == p2);
                     st.au_lucas_agree += (alu == pl);
                     st.component_div += (amr != p2) + (alu != pl);
@@ -108,11 +114,11 @@ inline int sieve_main(int argc, char **argv) {
                 "\"primes\":%llu,\"composites\":%llu,\"viol\":%llu,\"factor_eq_n\":%llu,"
                 "\"factor_lt_n\":%llu,\"factor_big\":%llu,\"spsp2\":%llu,\"slpsp\":%llu,"
                 "\"both_psp\":%llu,\"au_mr2_agree\":%llu,\"au_lucas_agree\":%llu,"
-                "\"component_div\":%llu,\"skipped_factor_calls\":%llu}\n",
+                "\"component_div\":%llu,\"skipped_factor_calls\":%llu,\"ub_reports\":%lu}\n",
                 (unsigned long long)lo, (unsigned long long)hi, fmode, st.evals_prime,
                 st.evals_factor, st.primes, st.composites, st.viol, st.factor_eq_n, st.factor_lt_n,
                 st.factor_big, st.spsp2, st.slpsp, st.both_psp, st.au_mr2_agree, st.au_lucas_agree,
-                st.component_div, st.skipped_factor_calls);
+                st.component_div, st.skipped_factor_calls, (unsigned long)c12_ub_reports);
     return 0;
 }
 
